@@ -31,14 +31,15 @@ POINTS = BASE + [(1.0, 1.0, 1.0), (1.5, 1.5, 0.0), (0.0, 2.0, -1.0)] + [(1.0, 0.
     + [(1, 0, 1), (2, 1, 0), (0, 1, -1)]
 KCVAL = 0.5 + 1.0j          # tdgl.Constant(KCVAL): expressions linear in it are read in units of it
 _UNIT = [None]
-TIMES = [0, 64, 192]                                                 # ParamAlg.TimeSeq (units of 1/Q)
+TIMES = [0, 64, 192, -64, -128, -32]                                 # ParamAlg.TimeSeq (units of 1/Q): t = 0, 1, 3, -1, -2, -0.5
 ARGS = ["s1", "s2", "s3", "arr"]
 OPS = {"add": operator.add, "sub": operator.sub, "mul": operator.mul, "div": operator.truediv, "pow": operator.pow}
 OPSYM = {"add": "+", "sub": "-", "mul": "*", "div": "/", "pow": "**"}
 
 # mechanism the specification prescribes (repaired) and the mechanism of the pinned classes (design canary)
-MECH = dict(MInitUseCache=True, MClearByOperand=True, MPickleSlots=True, MEqFlat=False, MReuseEqual=False, MRampClamp=False, MCacheKeyXOnly=False, MConstDtype=False, MCacheKeyBuffer=False, MCacheKeyTime=True)
-PINNED = dict(MECH, MInitUseCache=False, MClearByOperand=False, MPickleSlots=False)
+MECH = dict(MInitUseCache=True, MClearByOperand=True, MPickleSlots=True, MEqFlat=False, MReuseEqual=False, MRampClamp=False, MCacheKeyXOnly=False, MConstDtype=False, MCacheKeyBuffer=False, MCacheKeyTime=True,
+            MCacheKeyHashT=False, MCacheKeyHashK=False)
+PINNED = dict(MECH, MInitUseCache=False, MClearByOperand=False, MPickleSlots=False, MCacheKeyHashT=True, MCacheKeyHashK=True)
 INVARIANTS = ["TypeOK", "EvalIsPointwise", "TimeDepIffSomeOperand", "EqIsStructural", "NestingTotal",
               "ClearCacheTotal", "PickleRoundTrip", "SolverAcceptsComposite"]
 
@@ -269,6 +270,19 @@ def call_event(tdgl, obj, who, form, t_units):
     return {"ev": "call", "who": who, "f": form, "t": t_units, "obs": obs, "fill": filled(obj, tdgl)}
 
 
+def retune_event(tdgl, obj, c_units):
+    """The keyword argument c of every time-dependent leaf of the built object set to c, in place (Parameter.kwargs is a
+    public attribute and takes part in the cache key).  Integral values are set as Python ints, others as floats."""
+    c = c_units / Q
+    c = int(c) if c == int(c) else c
+    n = 0
+    for _, node in nodes(obj, tdgl):
+        if not isinstance(node, tdgl.parameter.CompositeParameter) and node.time_dependent and "c" in node.kwargs:
+            node.kwargs["c"] = c
+            n += 1
+    return {"ev": "retune", "who": "orig", "c": c_units, "n": n}
+
+
 ARR_PTS = {"arr": (0, 1, 2), "arr2": (2, 0, 1), "arr3": (1, 1, 0),       # ParamAlg.ArgPts (0-based)
            "arrY": (3, 4, 5), "arrZ": (6, 7, 8), "arrI": (9, 10, 11), "i1": (9,), "i2": (10,)}
 # (content, buffer) per call, at one time: the same memory re-delivered with other content, slices and strided views of
@@ -398,8 +412,16 @@ def eq_event(a, b, other_tree):
     return {"ev": "eq", "other": other_tree, "res": res}
 
 
-ORIG_CALLS = [("F2", 0), ("F3", 0), ("F2T", 64), ("F3T", 64), ("F3T", 192), ("F3T", 64), ("F3T", 0)]
-COPY_CALLS = [("F2", 0), ("F3", 0), ("F3T", 192), ("F3T", 64)]
+# (argument form, time) per call; every call goes to the three scalar points and to the array of them.  Times repeat, and
+# negative times follow positive ones and one another in both orders: t = -1 then -2 then -1 on the original, -2 then -1 on
+# the unpickled copy, -0.5 next to 0, -1 next to 1 (what a cache keyed by less than the time itself cannot tell apart)
+ORIG_CALLS = [("F2", 0), ("F3", 0), ("F2T", 64), ("F3T", 64), ("F3T", 192), ("F3T", 64), ("F3T", 0),
+              ("F3T", -64), ("F3T", -128), ("F3T", -64), ("F3T", -32), ("F3T", 0), ("F2T", -128)]
+COPY_CALLS = [("F2", 0), ("F3", 0), ("F3T", 192), ("F3T", 64), ("F3T", -128), ("F3T", -64), ("F3T", -32)]
+# the keyword argument c of the time-dependent leaves (1 as built) edited in place, each edit followed by a call in the form
+# that answers, at one and the same time: c = -1, -2, -1, 2, and back to 1 (what the rest of the exercise assumes)
+RETUNES = [-64, -128, -64, 128, 64]
+RETUNE_CALL = ("F3T", 64)
 
 
 def exercise(tdgl, item, tmp=None):
@@ -440,6 +462,10 @@ def _exercise(tdgl, item, tmp=None):
     else:
         for form, t in item.get("calls", ORIG_CALLS):
             ev.append(call_event(tdgl, obj, "orig", form, t))
+        if item.get("retune", "calls" not in item) and kinds(tree) & {"PT", "PTb"}:
+            for c in RETUNES:
+                ev.append(retune_event(tdgl, obj, c))
+                ev.append(call_event(tdgl, obj, "orig", *RETUNE_CALL))
         if item.get("deliver", True):
             ev += deliver_events(tdgl, obj, tree)
     if item.get("clear", True):
@@ -607,7 +633,7 @@ def validate_parallel(ctx, traces, name, nbatch=4, timeout=900):
 def clause_of(event, violated):
     if violated:
         return ",".join(violated)
-    return {"build": "NestingTotal/TimeDepIffSomeOperand", "eq": "EqIsStructural", "call": "EvalIsPointwise", "deliver": "EvalIsPointwise (array call)",
+    return {"build": "NestingTotal/TimeDepIffSomeOperand", "eq": "EqIsStructural", "call": "EvalIsPointwise", "retune": "no-matching-action", "deliver": "EvalIsPointwise (array call)",
             "clear": "ClearCacheTotal", "pickle": "PickleRoundTrip", "unpickle": "PickleRoundTrip",
             "solve": "SolverAcceptsComposite"}.get(event, "no-matching-action")
 
